@@ -59,9 +59,18 @@ Inductive skey := KSym (s : pystr) | KRsa (n : nat) | KEc (n : nat).
 (* a verification key held by the key jar: symmetric bytes, or the public half of key number n *)
 Inductive vkey := VOct (s : pystr) | VRsa (n : nat) | VEc (n : nat).
 
+(* j_key is the SIGNER: the key material that made the signature (generator ground truth).  j_sub / j_azp /
+   j_cid are the other claims INSIDE the signed JWT that can name a client (sub, azp, client_id): nothing below
+   reads them - the identity an assertion establishes is its iss, the issuer whose registered key verified
+   the signature, whatever the signer wrote into the other claims.  (The claims of a REQUEST OBJECT are request
+   parameters as well: verify_request - after the point this model observes - merges them into the request, and
+   Authorization._post_parse_request refuses an object whose client_id differs from the authenticated client;
+   that is property C16's subject, not modelled here.) *)
 Record jwt := {
   j_alg : alg;  j_key : skey;
-  j_iss : option pystr;  j_aud : option (list pystr);
+  j_iss : option pystr;
+  j_sub : option pystr;  j_azp : option pystr;  j_cid : option pystr;
+  j_aud : option (list pystr);
   j_exp : option Z;  j_nbf : option Z;  j_iat : option Z;
   j_jti : option pystr }.
 (* the value of a client_assertion / request parameter *)
@@ -473,6 +482,21 @@ Definition parse_request (cx : actx) (ep : endpoint) (rq : request) (now : Z) (j
         | _ => (Ok (PGeneric (r_client_id rq) (r_client_id rq) false), j1)
         end
     end.
+
+(* ------------------------------------------------------------------ the inner claims of an assertion *)
+(* the same signed JWT with other values for the claims that name a client besides iss *)
+Definition jwt_with_inner (s a c : option pystr) (j : jwt) : jwt :=
+  {| j_alg := j_alg j; j_key := j_key j; j_iss := j_iss j; j_sub := s; j_azp := a; j_cid := c;
+     j_aud := j_aud j; j_exp := j_exp j; j_nbf := j_nbf j; j_iat := j_iat j; j_jti := j_jti j |}.
+Definition token_with_inner (s a c : option pystr) (t : token) : token :=
+  match t with NotJwt => NotJwt | Jwt j => Jwt (jwt_with_inner s a c j) end.
+(* the request whose client_assertion and request object carry these inner claims instead *)
+Definition rq_with_inner (s a c : option pystr) (rq : request) : request :=
+  {| r_hdr := r_hdr rq; r_client_id := r_client_id rq; r_client_secret := r_client_secret rq;
+     r_access_token := r_access_token rq;
+     r_assertion := option_map (token_with_inner s a c) (r_assertion rq);
+     r_request := option_map (token_with_inner s a c) (r_request rq);
+     r_authflag := r_authflag rq |}.
 
 (* ------------------------------------------------------------------ histories (for the replay theorem) *)
 Record step := { s_cx : actx; s_ep : endpoint; s_rq : request; s_now : Z }.
